@@ -232,7 +232,7 @@ impl C13 {
             let ctxs = if !thorough && *l == 4 { 1 } else { 2 };
             fams.add(&format!("definition token soup of length {}", l), vec![(SOUP.len() as u64).pow(*l as u32), ctxs]);
         }
-        fams.add("dependency cycles: length x namespace", vec![cyc_lens.len() as u64, 8]);
+        fams.add("dependency cycles: length x namespace", vec![cyc_lens.len() as u64, 11]);
         fams.add("dependency chains: length x direction", vec![if thorough { 3 } else { 2 }, 2]);
         fams.add("malformed substances and directives", vec![SUBSTANCE_FILES.len() as u64]);
         fams.add("currency JSON: truncations", vec![json_cuts.len() as u64]);
@@ -368,6 +368,26 @@ fn cycle_text(n: u64, nsidx: u64) -> (String, Vec<String>) {
                 t.push_str(&format!("{} {}\n", nm(i), nm(i + 1)));
             }
         }
+        8 | 9 => {
+            // closed through a prefix *used as a prefix*: prefix a_i is defined by unit b_i, and b_i
+            // by the prefixed name a_(i+1) + y.  Shape 9 swaps the name spaces so that either the
+            // prefixes or the units sort (and are visited) first.
+            let (pa, ua) = if nsidx == 8 { ("p", "w") } else { ("w", "p") };
+            t.push_str("y !\n");
+            for i in 0..n {
+                t.push_str(&format!("{}{:0w$}- 2 {}{:0w$}\n", pa, i, ua, i, w = w));
+                t.push_str(&format!("{}{:0w$} 3 {}{:0w$}y\n", ua, i, pa, (i + 1) % n, w = w));
+            }
+            return (t, vec![format!("{}{:0w$}", ua, 0, w = w), format!("{}{:0w$}y", pa, 0, w = w), "y".to_string()]);
+        }
+        10 => {
+            // prefixes defined directly by a name carrying the next prefix: p_i- 1000 p_(i+1)y
+            t.push_str("y !\n");
+            for i in 0..n {
+                t.push_str(&format!("p{:0w$}- 1000 p{:0w$}y\n", i, (i + 1) % n, w = w));
+            }
+            return (t, vec![format!("p{:0w$}y", 0, w = w), "y".to_string()]);
+        }
         _ => {
             // bare aliases whose names ALSO read as prefix + base unit: `kb0 kb1`, ... with `b_i !`.
             // The cycle is reported, yet each alias still evaluates through the prefix reading once
@@ -391,7 +411,7 @@ impl Space for C13 {
         Meta {
             id: "C13",
             level: "exploration",
-            rule: "deviation-bounded: 0 deviations (shipped files) then every single deviation {delete line, duplicate line, swap with next, delete each token, replace each number by 0 / -1} of definitions.units (quick: every 40th line), currency.units and datepatterns.txt; every definitions file of <= 4 (thorough 5) tokens over a 27-token alphabet, loaded into an empty context and into one holding `m !meter`; dependency cycles of length 1..12, 100, 1000, 2000 (thorough 5000) through 8 namespace shapes (units, prefixes, quantities, substance property, prefix/plural readings, reverse order, bare aliases, bare aliases that also read as prefix + base unit); forward/backward alias chains of 1000/3000 (thorough also 10000); 14 malformed substance/directive files; currency JSON truncated at every (quick: every 9th) byte, every field deleted or type-replaced (8 edits); date-pattern soups. Oracle: the load returns without panic/abort/stack overflow within the limit; a problem is reported when a deleted single-line definition was needed by another and has no other reading, and for every cycle; afterwards `1 + 1` answers 2 and queries for loaded/missing names do not panic. Non-trivial = all; distinct by the text loaded".into(),
+            rule: "deviation-bounded: 0 deviations (shipped files) then every single deviation {delete line, duplicate line, swap with next, delete each token, replace each number by 0 / -1} of definitions.units (quick: every 40th line), currency.units and datepatterns.txt; every definitions file of <= 4 (thorough 5) tokens over a 27-token alphabet, loaded into an empty context and into one holding `m !meter`; dependency cycles of length 1..12, 100, 1000, 2000 (thorough 5000) through 11 namespace shapes (units, prefixes, quantities, substance property, prefix/plural readings, reverse order, bare aliases, bare aliases that also read as prefix + base unit, prefix<->unit cycles closed by a prefix used as a prefix in both visiting orders, prefixes defined by names carrying the next prefix); forward/backward alias chains of 1000/3000 (thorough also 10000); 14 malformed substance/directive files; currency JSON truncated at every (quick: every 9th) byte, every field deleted or type-replaced (8 edits); date-pattern soups. Oracle: the load returns without panic/abort/stack overflow within the limit; a problem is reported when a deleted single-line definition was needed by another and has no other reading, and for every cycle; afterwards `1 + 1` answers 2 and queries for loaded/missing names do not panic. Non-trivial = all; distinct by the text loaded".into(),
             assumptions: vec![
                 "expression nesting depth beyond a few hundred is outside the statement's quantifier (chat-size / realistic files)".into(),
                 "the reporting clause is judged only where the harness can prove the deleted definition has no other reading".into(),
@@ -413,7 +433,7 @@ impl Space for C13 {
         } else if f <= ns {
             format!("soup[{}]: {:?}", if d[1] == 0 { "empty ctx" } else { "ctx with m" }, soup_text(d[0], self.soup_len[f - 1]))
         } else if f == ns + 1 {
-            format!("cycle of length {} through {}", self.cyc_lens[d[0] as usize], ["units", "prefixes", "quantities", "a substance property", "prefix/plural readings", "units in reverse order", "bare aliases", "bare aliases that also read as prefix + base unit"][d[1] as usize])
+            format!("cycle of length {} through {}", self.cyc_lens[d[0] as usize], ["units", "prefixes", "quantities", "a substance property", "prefix/plural readings", "units in reverse order", "bare aliases", "bare aliases that also read as prefix + base unit", "prefixes defined by units that use the next prefix as a prefix", "the same with units sorting before prefixes", "prefixes defined by a name carrying the next prefix"][d[1] as usize])
         } else if f == ns + 2 {
             format!("alias chain of {} {}", [1000, 3000, 10000][d[0] as usize], if d[1] == 0 { "forward" } else { "backward" })
         } else if f == ns + 3 {
